@@ -1,7 +1,9 @@
 ------------------------------ MODULE RawTunnel ------------------------------
 (* Layer A: the data plane of a session in RAW UDP mode (src/client.c          *)
 (* tunnel_tun -> send_raw_data, read_dns_withq raw branch, the ping on select   *)
-(* timeout; src/iodined.c raw_decode -> handle_raw_data / handle_raw_ping,      *)
+(* timeout and - since the repair of F15 - the keep-alive ping an iteration     *)
+(* sends first when select() returned with data and the last ping is older than *)
+(* the idle interval (time is not modelled: it MAY be sent); src/iodined.c raw_decode -> handle_raw_data / handle_raw_ping,      *)
 (* tunnel_tun raw branch -> send_raw).  No fragmentation, no acks, no queue:    *)
 (* one datagram carries the whole compressed image - cut to RAWMAX bytes by     *)
 (* send_raw() on either side, which the receiver's uncompress() then rejects    *)
@@ -32,13 +34,16 @@ SrvOnTun(p, ser) == [out |-> <<Data(p, ser)>>, tunw |-> <<>>]
 SrvOnFrame(f, ser) == [out |-> IF f.kind = "ping" THEN <<Ping(ser)>> ELSE <<>>,
                        tunw |-> IF Complete(f) THEN <<f.p>> ELSE <<>>]
 ToSet(s) == {s[i] : i \in 1..Len(s)}
+\* the keep-alive ping in front of an iteration's handlers (client_tunnel, raw mode)
+KeepAlive(ka, ser) == IF ka THEN <<Ping(ser)>> ELSE <<>>
 
 Init == /\ netUp = {} /\ netDn = {} /\ upNext = 1 /\ dnNext = 1
         /\ tunS = <<>> /\ tunC = <<>> /\ accS = <<>> /\ accC = <<>> /\ loss = 0 /\ dup = 0 /\ lastact = "init"
 Ser == 0      \* frames carry no identity of their own: equal frames in flight are one element of the set
 
-ACliTun == /\ upNext <= Len(UpLens)
-           /\ LET r == CliOnTun(UpPkt(upNext), Ser) IN netUp' = netUp \cup ToSet(r.out)
+ACliTun(ka) ==
+           /\ upNext <= Len(UpLens)
+           /\ LET r == CliOnTun(UpPkt(upNext), Ser) IN netUp' = netUp \cup ToSet(KeepAlive(ka, Ser) \o r.out)
            /\ accS' = Append(accS, UpPkt(upNext)) /\ upNext' = upNext + 1 /\ lastact' = "CliTun"
            /\ UNCHANGED <<netDn, dnNext, tunS, tunC, accC, loss, dup>>
 ASrvTun == /\ dnNext <= Len(DnLens)
@@ -50,11 +55,13 @@ ASrvRecv(f, keep) == /\ f \in netUp
                      /\ netUp' = IF keep THEN netUp ELSE netUp \ {f}
                      /\ dup' = (IF keep THEN dup + 1 ELSE dup) /\ lastact' = "SrvRecv"
                      /\ UNCHANGED <<upNext, dnNext, tunC, accS, accC, loss>>
-ACliRecv(f, keep) == /\ f \in netDn
+ACliRecv(f, keep, ka) ==
+                     /\ f \in netDn
                      /\ LET r == CliOnFrame(f) IN tunC' = tunC \o r.tunw
                      /\ netDn' = IF keep THEN netDn ELSE netDn \ {f}
+                     /\ netUp' = netUp \cup ToSet(KeepAlive(ka, Ser))
                      /\ dup' = (IF keep THEN dup + 1 ELSE dup) /\ lastact' = "CliRecv"
-                     /\ UNCHANGED <<netUp, upNext, dnNext, tunS, accS, accC, loss>>
+                     /\ UNCHANGED <<upNext, dnNext, tunS, accS, accC, loss>>
 ACliTimeout == /\ \A f \in netUp \cup netDn : f.kind # "ping"
                /\ netUp' = netUp \cup ToSet(CliOnTimeout(Ser).out) /\ lastact' = "CliTimeout"
                /\ UNCHANGED <<netDn, upNext, dnNext, tunS, tunC, accS, accC, loss, dup>>
@@ -63,9 +70,9 @@ ADrop == /\ loss < MaxLoss
             \/ \E f \in netDn : netDn' = netDn \ {f} /\ UNCHANGED netUp
          /\ loss' = loss + 1 /\ lastact' = "Drop"
          /\ UNCHANGED <<upNext, dnNext, tunS, tunC, accS, accC, dup>>
-Next == \/ ACliTun \/ ASrvTun \/ ACliTimeout \/ ADrop
+Next == \/ (\E ka \in BOOLEAN : ACliTun(ka)) \/ ASrvTun \/ ACliTimeout \/ ADrop
         \/ \E f \in netUp : ASrvRecv(f, FALSE) \/ (dup < MaxDup /\ ASrvRecv(f, TRUE))
-        \/ \E f \in netDn : ACliRecv(f, FALSE) \/ (dup < MaxDup /\ ACliRecv(f, TRUE))
+        \/ \E f \in netDn, ka \in BOOLEAN : ACliRecv(f, FALSE, ka) \/ (dup < MaxDup /\ ACliRecv(f, TRUE, ka))
 Spec == Init /\ [][Next]_vars
 
 \* C01 in raw mode: only packets the peer accepted are written, and only whole ones
